@@ -49,3 +49,116 @@ def _(c):
     lp.invariant('all(marker(args[k]) == 0 for k in range(0, _it0))', 'no_marker_so_far')
     lp.invariant('_n0 == len(args)', 'n')
     c.native_gen(_gen_split)
+
+
+@contract('core.util.check_gdb')
+def _(c):
+    c.trusted('probes importlib for a `gdb` module: True exactly inside GDB; no other effect')
+    c.returns('bool')
+    c.epoch_preserving()
+
+
+def _gen_select(rnd):
+    import argparse
+    ns = argparse.Namespace(path=rnd.choice([None, None, 'x.log']), pipe=rnd.random() < 0.3)
+    return (rnd.choice(['', 'g', 'r']), ns)
+
+
+@contract('frontends.tui.arguments._select_mode')
+def _(c):
+    c.prop('C19')
+    c.types(args='Obj("argparse.Namespace")', modes='List(str)').returns('Opt(str)')
+    c.requires('command_id == "" or command_id == "g" or command_id == "r"', 'a_mode_letter_from_the_splitter')
+    c.let('n_wo_gdb', '(1 if command_id != "" else 0) + (1 if args.path is not None else 0) + (1 if args.pipe else 0)')
+    c.ensures('result is None or result == "run" or result == "gdb-runner" or result == "gdb-plugin" or result == "load-from-file" or result == "pipe"', 'a_mode')
+    c.ensures('(n_wo_gdb < 2) or result is None', 'conflicting_modes_select_nothing')
+    c.ensures('(n_wo_gdb != 0) or result is None or result == "gdb-plugin"', 'no_mode_selects_nothing_outside_gdb')
+    c.ensures('result is None or result == "gdb-plugin" or n_wo_gdb == 1', 'exactly_one_mode')
+    c.ensures('result != "run" or command_id == "r"', 'run_only_by_r')
+    c.ensures('result != "gdb-runner" or command_id == "g"', 'gdb_only_by_g')
+    c.ensures('result != "load-from-file" or args.path is not None', 'load_only_by_l')
+    c.ensures('result != "pipe" or args.pipe', 'pipe_only_by_p')
+    c.modifies('new')
+    c.native_gen(_gen_select)
+
+
+# ---------------------------------------------------------------------------------------------------------------
+# run_gdb: the words before -g are re-created inside GDB from a quoted Python list literal.  str.replace and the
+# Python literal reader are outside the engine's string theory, so this clause is a BOUNDED stand-in (labelled so in
+# the evidence, never counted as proved): the real run_gdb is executed with subprocess.Popen / verify_gdb_available
+# replaced by recorders, for every argument vector over a small alphabet up to a small length.
+def _run_gdb_bounded(tier, seed):
+    import itertools, json, os
+    from pyvc import contracts, repo
+    import backends.gdb_plugin.runner as runner
+    from frontends.tui.arguments import Arguments, Mode
+    alphabet = ['a', '"', '\\', ' ', "'", 'n', '-']
+    maxlen = 4 if tier == 'thorough' else 3
+    words = ['']
+    for L in range(1, maxlen + 1):
+        words += [''.join(t) for t in itertools.product(alphabet, repeat=L)]
+    calls = []
+    class FakePopen:
+        def __init__(self, argv, env=None):
+            calls.append((argv, env))
+            self.returncode = 7
+        def wait(self):
+            return 7
+    saved = (runner.subprocess.Popen, runner.verify_gdb_available)
+    runner.subprocess.Popen = FakePopen
+    runner.verify_gdb_available = lambda: None
+    bad = []
+    tried = 0
+    try:
+        for w in words:
+            for extra in ([], ['-x', w]):
+                wd_args = ['main.py', '-f', w]
+                cmd_args = ['prog', w] + extra
+                a = Arguments(False, False, True, Mode.GDB_RUNNER, '', None, None, None, wd_args, cmd_args)
+                del calls[:]
+                rc = runner.run_gdb(a, True)
+                tried += 1
+                argv, env = calls[0]
+                ok = argv[0] == 'gdb' and argv[1] == '-ex' and argv[3:] == cmd_args and rc == 7
+                call = argv[2]
+                try:
+                    lit = call[call.index('sys.argv = ') + len('sys.argv = '):call.index('; exec(')]
+                    ok = ok and eval(lit, {}) == wd_args
+                except Exception as e:
+                    ok = False
+                if not ok and len(bad) < 5:
+                    bad.append({'wayland_debug_args': wd_args, 'command_args': cmd_args, 'gdb_argv': argv})
+    finally:
+        runner.subprocess.Popen, runner.verify_gdb_available = saved
+    out = {'coverage': {'bounded_standins': [{'function': 'backends.gdb_plugin.runner.run_gdb (argv quoting)', 'bound': 'option values over %r up to length %d, exhaustively: %d vectors' % (alphabet, maxlen, tried),
+                                               'violations': len(bad), 'counted_as_proved': False}]},
+           'violations': [], 'lines': []}
+    known = [k for k in _known() if k.get('property') == 'C19' and k.get('function') == 'backends.gdb_plugin.runner.run_gdb']
+    if bad:
+        if known:
+            out['lines'].append('KNOWN-FINDING: property=C19 ' + known[0]['what'])
+        else:
+            rp = os.path.join(os.environ.get('VERIF_REPLAY_DIR', os.path.join(os.path.dirname(os.path.dirname(os.path.abspath(__file__))), 'replays')), 'C19')
+            os.makedirs(rp, exist_ok=True)
+            path = os.path.join(rp, 'run_gdb.quoting.json')
+            json.dump({'property': 'C19', 'kind': 'bounded-counterexample', 'function': 'backends.gdb_plugin.runner.run_gdb', 'inputs': bad,
+                       'expected': 'the Python list literal embedded in the gdb -ex command evaluates to wayland_debug_args',
+                       'replay_cmd': './check --replay ' + path}, open(path, 'w'), indent=1)
+            out['violations'].append({'path': path, 'suffix': '', 'what': 'run_gdb re-creates sys.argv wrongly for %r' % (bad[0]['wayland_debug_args'],)})
+    return out
+
+
+def _known():
+    import json, os
+    p = os.path.join(os.path.dirname(os.path.dirname(os.path.abspath(__file__))), 'known_findings.jsonl')
+    out = []
+    if os.path.exists(p):
+        for line in open(p):
+            line = line.strip()
+            if line and not line.startswith(('#', 'fixed:')):
+                out.append(json.loads(line))
+    return out
+
+
+from pyvc import contracts as _c
+_c.PROP_RUNNERS.setdefault('C19', []).append(_run_gdb_bounded)
